@@ -43,6 +43,11 @@ def reader_positions(mod, func, base):
     for c in walk(func):
         if isinstance(c, ast.Call) and call_name(c) == '_check' and c.args and isinstance(c.args[0], ast.Compare):
             l, r = c.args[0].left, c.args[0].comparators[0]
+            if isinstance(l, ast.Attribute) and l.attr == 'tag' and isinstance(l.value, ast.Name):
+                # alias of a child: x = base[k] ; _check(x.tag == 'X')
+                ds = [s_ for s_ in statements(func) if isinstance(s_, ast.Assign) and len(s_.targets) == 1 and isinstance(s_.targets[0], ast.Name) and s_.targets[0].id == l.value.id]
+                if len(ds) == 1 and isinstance(ds[0].value, ast.Subscript) and unparse(ds[0].value.value) == base:
+                    l = ast.Attribute(value=ds[0].value, attr='tag', ctx=ast.Load())
             if isinstance(l, ast.Attribute) and l.attr == 'tag' and isinstance(l.value, ast.Subscript) and unparse(l.value.value) == base and isinstance(r, ast.Constant):
                 k = const(l.value.slice)
                 if isinstance(k, int):
@@ -68,11 +73,15 @@ def d1_positions(ctx, m):
     ctx.check(rule, 'dobs#element-order', ok and set(dp.values()) >= {'array', 'ne', 'nc'}, 'writer order %s matches reader positions %s' % (order, dp), 'writer inserts %s but the reader indexes %s' % (order, dp))
     # description = first three, data from 6
     desc = [s for s in statements(r) if isinstance(s, ast.For) and 'descriptiond[dobs[i].tag]' in unparse(s)]
+    if not desc:
+        # the same loop written as a dict comprehension
+        desc = [c.generators[0] for s_ in statements(r) if isinstance(s_, ast.Assign) and unparse(s_.targets[0]) == 'descriptiond' for c in [s_.value] if isinstance(c, ast.DictComp)
+                and unparse(c.key) == 'dobs[%s].tag' % unparse(c.generators[0].target)]
     okd = len(desc) == 1 and unparse(desc[0].iter) == 'range(3)' and order[:3] == ['spec', 'origin', 'name']
     ctx.check(rule, 'dobs#description', okd, 'first three children are the description fields', 'description loop %s vs writer %s' % ([unparse(d.iter) for d in desc], order[:3]))
     lp = [s for s in statements(r) if isinstance(s, ast.For) and unparse(s.target) == 'k']
     n_fixed = order.index('edata') if 'edata' in order else -1
-    okl = len(lp) == 1 and unparse(lp[0].iter) == 'range(%d, len(list(dobs)))' % n_fixed
+    okl = len(lp) == 1 and unparse(lp[0].iter) in ('range(%d, len(list(dobs)))' % n_fixed, 'range(%d, len(dobs))' % n_fixed)
     ctx.check(rule, 'dobs#data-start', okl, 'ensemble / covariance blocks start at child %d' % n_fixed, 'reader loop %s, writer has %d leading elements' % ([unparse(l.iter) for l in lp], n_fixed))
     ctx.check(rule, 'dobs#edata-before-cdata', 'edata' in order and 'cdata' in order and order.index('edata') < order.index('cdata'), 'edata then cdata (reader dispatches on the tag)', 'order %s' % order)
     eo = key_order(m, w, 'ed')
@@ -105,6 +114,9 @@ def d1_positions(ctx, m):
     okl = len(lp) == 1 and unparse(lp[0].iter) == 'range(%d, len(pobs))' % order.index('array')
     ctx.check(rule, 'pobs#data-start', okl, 'replica arrays start at child %d' % order.index('array'), 'reader loop %s' % [unparse(l.iter) for l in lp])
     desc = [s for s in statements(r) if isinstance(s, ast.For) and 'descriptiond[pobs[i].tag]' in unparse(s)]
+    if not desc:
+        desc = [c.generators[0] for s_ in statements(r) if isinstance(s_, ast.Assign) and unparse(s_.targets[0]) == 'descriptiond' for c in [s_.value] if isinstance(c, ast.DictComp)
+                and unparse(c.key) == 'pobs[%s].tag' % unparse(c.generators[0].target)]
     okd = len(desc) == 1 and unparse(desc[0].iter) == 'range(%d)' % order.index('nr')
     ctx.check(rule, 'pobs#description', okd, 'children before nr are the description', 'description loop %s' % [unparse(d.iter) for d in desc])
 
